@@ -9,6 +9,7 @@ import Bip39V.Props.Tab.Korean
 import Bip39V.Props.Tab.Portuguese
 import Bip39V.Props.Tab.Spanish
 import Bip39V.Spec.Bip39
+import Bip39V.Lemmas.Split
 /-! The regenerated tables, the `list()`/`mapping()` switches and the canonical lists: everything
 the property theorems need to know about the data, each fact re-established from the regenerated
 `Gen` files on every run. -/
@@ -124,5 +125,18 @@ theorem mapping_other (ℓ : Int) (h : Lang.ofValue ℓ = none) : (Model.mapping
         rw [hv, h] at this; cases this
       · exact ih (fun x hx => harms x (List.mem_cons_of_mem _ hx))
   rw [this]
+
+
+theorem space_not_mem_word (L : Lang) (w : Str) (hw : w ∈ L.words) : 0x20 ∉ w :=
+  not_mem_of_noWs (wordOk_noWs (words_wordOk L w hw)) 0x20 (by decide)
+
+theorem sep_not_mem_word (L : Lang) (w : Str) (hw : w ∈ L.words) : L.sep ∉ w :=
+  not_mem_of_noWs (wordOk_noWs (words_wordOk L w hw)) L.sep (by cases L <;> decide)
+
+theorem word_mem (L : Lang) (i : Nat) (hi : i < 2048) : L.word i ∈ L.words := by
+  have hlt : i < L.words.length := by rw [words_length]; exact hi
+  unfold Lang.word
+  rw [List.getElem?_eq_getElem hlt, Option.getD_some]
+  exact List.getElem_mem hlt
 
 end Bip39V
